@@ -129,6 +129,21 @@ def check(run: Run) -> None:
             if fld == "condition" and held:
                 run.finding("C17.c", "request_stop:notify-under-lock", "notify_all must follow the lock scope", loc=fa.loc(node))
 
+    with run.obligation("C17.c2", "K2", "run_storage clears the stop flag only BEFORE the start phase: a stop requested while nodes start "
+                        "(or at any later point) is never overwritten"):
+        fa = R.fn(run, EXEC, "run_storage")
+        fl = R.flow(run, fa)
+        clear = R.call_is(name="store", recv=r"state\.stop_requested", arg=(0, r"false"))
+        start = R.call_is(name="run_executor_phase", arg=(1, r"GraphExecutorPhase::Start"))
+        R.require_nodes(run, fl, clear, "stop_requested.store(false)")
+        R.k2_never_after(run, "C17.c2", fl, R.either(start, R.call_is(name="start", recv=r"graph|state\.graph\.view\(\)")), clear,
+                         "stop flag cleared after the start phase began")
+        stores = fl.nodes_of(lambda n: n.kind == "call" and n.name in ("store", "exchange") and "stop_requested" in n.recv)
+        run.count(len(stores), "C17.c2")
+        for nid in stores:
+            if fl.cfg.nodes[nid].loops:
+                run.finding("C17.c2", "run_storage:stop-flag-written-in-loop", "the run loop writes the stop flag", loc=fl.cfg.describe(nid))
+
     with run.obligation("C17.d", "K1", "idle_run_continues(RealTime) is true: an idle real-time run continues to END"):
         n = 0
         for fd in t.funcs(EXEC, "idle_run_continues"):
@@ -169,6 +184,7 @@ VARIANTS = [
     {"id": "b-pred-ignores-stop", "expect": "C17.b", "edits": [{"file": EXEC, "find": "                    return state.push_update_pending ||\n                           state.stop_requested.load(std::memory_order_acquire);", "replace": "                    return state.push_update_pending;"}]},
     {"id": "c-stop-unlocked", "expect": "C17.c", "edits": [{"file": EXEC, "find": "            auto &state = realtime_storage(memory);\n            {\n                std::lock_guard lock{state.mutex};\n                state.stop_requested.store(true, std::memory_order_release);\n            }\n            state.condition.notify_all();", "replace": "            auto &state = realtime_storage(memory);\n            state.stop_requested.store(true, std::memory_order_release);\n            state.condition.notify_all();"}]},
     {"id": "c-no-notify", "expect": "C17.c", "edits": [{"file": EXEC, "find": "                state.stop_requested.store(true, std::memory_order_release);\n            }\n            state.condition.notify_all();", "replace": "                state.stop_requested.store(true, std::memory_order_release);\n            }"}]},
+    {"id": "c2-clear-after-start", "expect": "C17.c2", "edits": [{"file": EXEC, "find": "            state.stop_requested.store(false, std::memory_order_release);\n            state.set_evaluation_time(state.start_time);\n", "replace": "            state.set_evaluation_time(state.start_time);\n"}, {"file": EXEC, "find": "            ImmediateCycleRecorder recorder;\n", "replace": "            state.stop_requested.store(false, std::memory_order_release);\n            ImmediateCycleRecorder recorder;\n"}]},
     {"id": "d-idle-ends", "expect": "C17.d", "edits": [{"file": EXEC, "find": "        [[nodiscard]] bool idle_run_continues(const RealTimeExecutorStorage &, const GraphView &) noexcept\n        {\n            return true;", "replace": "        [[nodiscard]] bool idle_run_continues(const RealTimeExecutorStorage &, const GraphView &) noexcept\n        {\n            return false;"}]},
     {"id": "e-alarm-dropped", "expect": "C17.e", "edits": [{"file": SCHED, "find": "                    if (!on_wall_clock) { return; }\n                    when = std::max(now_ + MIN_TD, reference_now);", "replace": "                    return;"}]},
     {"id": "a-twin-max-swapped", "expect": None, "edits": [{"file": EXEC, "find": "const DateTime wall_or_next_cycle = std::max(wall_now, next_cycle);", "replace": "const DateTime wall_or_next_cycle = std::max(next_cycle, wall_now);"}]},
